@@ -190,9 +190,9 @@ let run_restore ?(halfopen_unclaimed = false) (real_is_pppoe : bool) (v : varian
         | 'H' -> if fresh_ipoe then half := k :: !half; e2e_step v w (EDiscover k)
         | 'X' -> e2e_step v w (if real_is_pppoe then EDiscover k else EPadr k)
         | 'B' ->
-          let skip = if halfopen_unclaimed then !half else [] in
+          let skip = !half in
           half := [];
-          e2e_restart_skipping skip w
+          if halfopen_unclaimed then e2e_restart_skipping v skip w else e2e_restart w
         | _ -> failwith ("bad restore op " ^ op) in
       go w' rest (show w' t :: acc) in
   match go world0 toks [] with
